@@ -16,7 +16,7 @@ RULE = ('metamorphic: a body P printed with all keywords in lower case and the s
         'every statement production, from pbt/oalsyn.py), (2) when interpreted (typed programs of C04 over the same '
         'initial population) return the same value and leave the same final population as P and as the reference '
         'evaluator, (3) prebuild to the same ACT_*/V_*/E_* instances apart from recorded source text and ids (the prebuild '
-        'fixtures of C05, state and transition actions with generate / create event statements included). non-trivial = P\' differs from P in a keyword that carries semantics (many/any/one, and/or/not, '
+        'fixtures of C05, state and transition actions with generate / create event statements included), (5) enumerated: every word of the keyword table glued to what follows it (`return::f()`, `not(x)`, `end::f()` ...; 55 words x 28 templates x 4 spellings) is accepted in every spelling or in none and gives trees of one shape. non-trivial = P\' differs from P in a keyword that carries semantics (many/any/one, and/or/not, '
         'true/false, empty/not_empty/cardinality); distinct = by (program, case map).')
 ASSUMPTIONS = [
     'identifiers are never re-cased (only words the printer emits as keywords)',
@@ -281,6 +281,58 @@ def _compare_variant(case, t0, variant):
                                 a['callable'], diff, [a['population'][k] for k in diff][:2], [b['population'][k] for k in diff][:2], b['text']))
 
 
+# -- (5) keyword-spelled words glued to what follows ---------------------------------------------------------------
+# Whatever a keyword-spelled word turns out to be in its context (keyword, namespace before '::', part of a longer
+# token), its letter case must not change whether the text is accepted nor the shape of the tree.  Every word of the
+# keyword table (and 'end') in every template, four spellings each.
+GLUE_TEMPLATES = ['%s::f();', 'x = %s::f();', 'return %s::f();', 'if (%s::f()) x = 1; end if;', 'x = 1 %s::f();', 'x = 1; %s::f();',
+                  'x = not %s::f();', 'x = y %s::f();', 'while (x) y = 1; end %s::f();', '%s(1);', 'x = %s(y);', '%s;', 'x = %s;',
+                  '%s.a = 1;', 'x = %s.a;', 'x = %s[1];', 'x = y.%s;', 'x = %s::a;', 'x = 1 %s- 1;', 'x = (%s);', 'x = %s"a";',
+                  'select any x from instances of %s;', "x = y->A[R1.'p']%s;", 'x = 1 %s 2;', 'if (x) y = 1; %s y = 2; end if;',
+                  'x = %s y;', 'x = %s(y) + 1;', 'for each x in %s y = 1; end for;']
+
+
+def _spellings(w):
+    return [w, w.upper(), w.capitalize(), ''.join(c.upper() if i % 2 else c for i, c in enumerate(w))]
+
+
+def _shape(n):
+    if isinstance(n, oal.Node):
+        return (type(n).__name__,) + tuple((k, _shape(v)) for k, v in sorted(vars(n).items()) if k not in ('position', 'character_stream'))
+    if isinstance(n, (list, tuple)):
+        return tuple(_shape(x) for x in n)
+    if isinstance(n, str):
+        return n.lower()            # the texts differ in the letters of one word only
+    return n
+
+
+def glue_cases():
+    words = sorted(set(k.lower() for k in oal.OALParser.keywords)) + ['end']
+    for w in words:
+        for t in GLUE_TEMPLATES:
+            yield {'glue': [t, w]}
+
+
+def glue_case(case, res=None):
+    t, w = case['glue']
+    outs = []
+    for sp in _spellings(w):
+        text = t % sp
+        try:
+            outs.append(('accepted', _shape(oal.parse(text)), text))
+        except oal.ParseException:
+            outs.append(('rejected', None, text))
+        except Exception as e:
+            raise Violation('glued-keyword-exception:' + exc_bucket(e), case, '%r for %r' % (e, text))
+    for o in outs[1:]:
+        if o[0] != outs[0][0]:
+            raise Violation('glued-keyword:accepted-in-one-spelling-only', case, '%r is %s, %r is %s' % (outs[0][2], outs[0][0], o[2], o[0]))
+        if o[1] != outs[0][1]:
+            raise Violation('glued-keyword:tree-differs', case, '%r and %r parse to different trees' % (outs[0][2], o[2]))
+    if res is not None:
+        res.case(case['glue'], outs[0][0] == 'accepted', classes=('glued', 'glued-' + outs[0][0]))
+
+
 def selftest():
     a = oal.parse('select many xs from instances of A; x = not true or false;')
     b = oal.parse('SELECT MANY xs FROM INSTANCES OF A; x = NOT TRUE OR FALSE;')
@@ -311,6 +363,9 @@ def run(ctx):
     hyp_run(ctx, res, prog, wrap(interpret_case), ctx.pick(600, 2500), label='interpret')
     if not ctx.quick:
         hyp_run(ctx, res, prog, wrap(interpret_case, flips=True), 150, label='interpret_flips')
+    if ctx.shard == 0:
+        from .core import loop_run
+        loop_run(ctx, res, glue_cases(), lambda c: glue_case(c, res))
     from . import c08_prebuild
     c08_prebuild.run_part(ctx, res)
     # (4) callables of a component (functions, bridges, operations, derived attributes calling each other): the same
@@ -323,7 +378,9 @@ def run(ctx):
 
 
 def replay(case):
-    if 'prebuild' in case:
+    if 'glue' in case:
+        glue_case(case)
+    elif 'prebuild' in case:
         from . import c08_prebuild
         c08_prebuild.replay(case)
     elif 'args' in case and 'order' in case:
